@@ -593,10 +593,10 @@ func recvName(f *ssa.Function) string {
 		return ""
 	}
 	t := f.Signature.Recv().Type()
-	if p, ok := t.(*types.Pointer); ok {
+	if p, ok := types.Unalias(t).(*types.Pointer); ok {
 		t = p.Elem()
 	}
-	if n, ok := t.(*types.Named); ok {
+	if n, ok := types.Unalias(t).(*types.Named); ok {
 		return n.Obj().Name()
 	}
 	return ""
